@@ -191,6 +191,20 @@ func c06One(wl Workload, f faultSpec, res *c06Res) {
 			add("no-catch-up-after-healing|"+f.Kind+"-"+f.Mode+"|any", fmt.Sprintf("%s, fault %s: after operations succeed again and 4 merger/persister alternations the store exposes prefix %d of %d: %s", wl.Name, f, p, len(w.models)-1, d))
 		} else {
 			res.Outcomes["caught-up"]++
+			// finally: close everything (this is when files scheduled for removal disappear) and reopen the directory
+			w.closeAll()
+			if w.infra == "" {
+				w.runAll()
+				got, oerr := w.openDump(w.dir)
+				switch {
+				case oerr != "":
+					add("lost-after-close|"+f.Kind+"-"+f.Mode+"|any", fmt.Sprintf("%s, fault %s: after catching up, closing collection and store, the directory cannot be reopened: %s (files: %v)", wl.Name, f, oerr, dataFiles(w.dir)))
+				case got.String() != w.model().DumpT(w.probes).String():
+					add("lost-after-close|"+f.Kind+"-"+f.Mode+"|any", fmt.Sprintf("%s, fault %s: after catching up, closing collection and store, the directory reopens to %s instead of the full reference content", wl.Name, f, got))
+				default:
+					res.Outcomes["reopened-complete"]++
+				}
+			}
 		}
 	}
 	if viol != nil && len(res.Viols) < 6 {
@@ -222,7 +236,7 @@ func checkC06(prop, tier string) int {
 	t0 := time.Now()
 	pool := NewPool()
 	wls := c06Workloads()
-	use := []int{0, 1}
+	use := []int{0, 1, 2}
 	counts := []int{1}
 	if tier == "thorough" {
 		use = []int{0, 1, 2, 3}
